@@ -10,7 +10,8 @@ MANIFEST = dict(
     design='6/C13')
 
 THEOREMS = ["Props.C13.C13_structured_reachable", "Props.C13.C13_cause_reachable", "Props.C13.C13_origin_code_exposed",
-            "Props.C13.C13_cause_reachable_refuted_at_rewrap_sites", "Props.C13.C13_observed_shape_derivable"]
+            "Props.C13.C13_cause_reachable_refuted_at_rewrap_sites", "Props.C13.C13_observed_shape_derivable",
+            "Props.C13.C13_tokenizer_error_offset", "Props.C13.C13_tokenizer_error_location_inside"]
 INST = ["Inst_C13.c13_site_table_ok", "Inst_C13.c13_no_rewrap", "Inst_C13.c13_table_closed", "Inst_C13.c13_api_nodes"]
 
 TOK = re.compile(r"""\s+|--[^\n]*|/\*.*?\*/|'(?:[^'\\]|\\.|'')*'|"(?:[^"\\]|\\.)*"|`[^`]*`|[A-Za-z_][A-Za-z0-9_$]*|\d+(?:\.\d+)?(?:[eE][+-]?\d+)?|<>|<=|>=|!=|\|\||::|->>|->|.""", re.S)
@@ -83,6 +84,11 @@ def build_inputs(tier, rng, limit_depth):
             inputs.append({"id": "cor%d:%s" % (k, op), "sql": c, "class": "any"}); k += 1
     for i, g in enumerate(lexical_garbage(rng, 120 if nq else 100000)):
         inputs.append({"id": "lex%d" % i, "sql": g, "class": "lexical"})
+        if i % 3 == 0:
+            # the same failure behind a long run of blanks / blank lines / tabs (locations must not depend on what a
+            # pooled tokenizer located before)
+            pre = rng.choice([" " * 12, " " * 40, "\n\n\n   ", "\t\t\t", "  \n" + " " * 24])
+            inputs.append({"id": "lexpre%d" % i, "sql": pre + g, "class": "lexical"})
     # malformed stream: byte soup / punctuation soup
     for i in range(30 if nq else 300):
         n = rng.randint(1, 12)
@@ -100,7 +106,10 @@ def build_inputs(tier, rng, limit_depth):
         for d in ([limit_depth + 60] if nq else [limit_depth + 3, limit_depth + 60, 4 * limit_depth]):
             inputs.append({"id": "depth:%s@%d" % (dn, d), "sql": depth_driver(dn, d), "class": "limit:depth", "big": True})
     inputs.append({"id": "size+1", "gen": {"kind": "size", "n": 10485761}, "class": "limit:size"})
-    inputs.append({"id": "tokens+1", "gen": {"kind": "tokens", "n": 1000001}, "class": "limit:tokens"})
+    tk = {"id": "tokens+1", "gen": {"kind": "tokens", "n": 1000001}, "class": "limit:tokens"}
+    if nq:   # a million tokens through three entry points instead of nine (quick tier budget)
+        tk["only"] = ["Tokenizer.Tokenize", "Tokenizer.TokenizeContext", "gosqlx.Parse"]
+    inputs.append(tk)
     return inputs
 
 
@@ -196,13 +205,28 @@ def attribute(an, ob, kind, stage=None, epname=None):
     return sorted(out)
 
 
-def run_sweep(inputs, timeout=2400):
-    inp = "".join(json.dumps(i) + "\n" for i in inputs)
-    p = common.vh(["errsweep"], input=inp, timeout=timeout)
-    outs = [json.loads(l) for l in p.stdout.splitlines() if l.strip()]
+def run_sweep(inputs, timeout=2400, shards=8):
+    """the sweep in parallel worker processes (contiguous shards keep the input order inside a shard)"""
+    from concurrent.futures import ThreadPoolExecutor
+    binp = common.stage_harness()
+    n = max(1, (len(inputs) + shards - 1) // shards)
+    parts = [inputs[i:i + n] for i in range(0, len(inputs), n)]
+    def one(part):
+        inp = "".join(json.dumps(i) + "\n" for i in part)
+        return common.run([binp, "errsweep"], input=inp, timeout=timeout)
+    with ThreadPoolExecutor(max_workers=shards) as ex:
+        ps = list(ex.map(one, parts))
+    outs = []
+    for p in ps:
+        outs += [json.loads(l) for l in p.stdout.splitlines() if l.strip()]
     for o in outs:
         o["eps"] = o.get("eps") or []
-    return outs, p
+    class P: pass
+    agg = P()
+    agg.returncode = max([p.returncode for p in ps] or [0])
+    agg.stderr = "".join(p.stderr[-1500:] for p in ps if p.returncode != 0)
+    agg.stdout = ""
+    return outs, agg
 
 
 def run(tier):
@@ -216,8 +240,10 @@ def run(tier):
             an = errflow.analyze(ef)
             errflow.emit(ef, an)
             common.stage_harness()
+            import gen04   # the tokenizer model (error-location theorems, Proofs/LexErrLocP.v) is built over the lexical tables of this tree
+            gen04.emit_lextables(gen04.stage_lextables())
             ok_inst, ok_props, _, logs = common.coq_stage(
-                rp, ["theories/Inst/Inst_C13.vo", "theories/Proofs/ErrFlowP.vo"], "theories/Props/C13.v", THEOREMS, inst_names=INST)
+                rp, ["theories/Inst/Inst_C13.vo", "theories/Proofs/ErrFlowP.vo", "theories/Proofs/LexErrLocP.vo"], "theories/Props/C13.v", THEOREMS, inst_names=INST)
     except common.StageError as e:
         return common.stage_fail(rp, e)
     limit = int(static["consts"]["pkg/sql/parser.MaxRecursionDepth"])
@@ -337,10 +363,27 @@ def run(tier):
         for i, sh in pairs:
             bysh.setdefault(sh, []).append(i)
         shl = sorted(bysh)
-        body = ("From Coq Require Import List NArith Bool.\nFrom GV Require Import Model.ErrFlow Gen.ErrSites.\nImport ListNotations.\nLocal Open Scope N_scope.\n"
-                "Definition cases : list (oshape * list N) :=\n  [%s].\n" % ";\n   ".join("(%s, [%s])" % (errflow.coq_shape(sh), "; ".join(str(i) for i in bysh[sh])) for sh in shl) +
-                "Definition bad := Eval vm_compute in bad_cases (shape_case_ok err_table) 0 cases.\nPrint bad.\n")
-        coq_ok, out, err = common.coq_cases("c13_shapes", body)
+        # evaluated in parallel shards (one coqc each); indices are mapped back to positions in shl
+        from concurrent.futures import ThreadPoolExecutor
+        nsh = 8
+        chunks = [list(range(k, len(shl), nsh)) for k in range(nsh)]
+        def shard(k):
+            idx = chunks[k]
+            if not idx:
+                return True, "bad = [] : list N", ""
+            body = ("From Coq Require Import List NArith Bool.\nFrom GV Require Import Model.ErrFlow Gen.ErrSites.\nImport ListNotations.\nLocal Open Scope N_scope.\n"
+                    "Definition cases : list (oshape * list N) :=\n  [%s].\n" % ";\n   ".join("(%s, [%s])" % (errflow.coq_shape(shl[j]), "; ".join(str(i) for i in bysh[shl[j]])) for j in idx) +
+                    "Definition bad := Eval vm_compute in bad_cases (shape_case_ok err_table) 0 cases.\nPrint bad.\n")
+            return common.coq_cases("c13_shapes_%d" % k, body)
+        with ThreadPoolExecutor(max_workers=nsh) as ex:
+            rs = list(ex.map(shard, range(nsh)))
+        coq_ok = all(r[0] for r in rs)
+        err = "".join(r[2][-600:] for r in rs if not r[0])
+        badpos = []
+        if coq_ok:
+            for k, r in enumerate(rs):
+                badpos += [chunks[k][j] for j in common.parse_nlist(r[1])]
+        out = "bad = [%s] : list N" % "; ".join(str(j) for j in sorted(badpos))
         if coq_ok:
             coq_bad = [(i, shl[j]) for j in common.parse_nlist(out) for i in bysh[shl[j]] if not errflow.produces(an, i, list(shl[j]))] or \
                       [(bysh[shl[j]][0], shl[j]) for j in common.parse_nlist(out)]
